@@ -1,2 +1,3 @@
+@pos_current.setter
 def spec(self, value):
     self.pos_current_.push(value, self.inplace)
